@@ -85,7 +85,7 @@ pub struct C17Plan {
 
 pub struct C17;
 
-const KEYS: &[char] = &['j', 'k', 'g', 'a', 'c', 'v', '.', 'f', 'l', '-', '/', '/', 'x', 'J', 'Q', '(', '*', '1', ' ', 'q'];
+const KEYS: &[char] = &['j', 'k', 'g', 'a', 'c', 'v', '.', 'f', 'l', '-', '/', '/', 'x', 'J', 'Q', '(', '*', '1', ' ', 'q', 'é', '日'];
 
 pub fn gen_ev(rng: &mut Rng, nav_bias: bool) -> Ev {
     if nav_bias && rng.chance(0.6) {
@@ -139,7 +139,8 @@ impl Scenario for C17 {
         }
     }
     fn generate(&self, rng: &mut Rng, tier: Tier, _idx: u64) -> C17Plan {
-        let (term_w, term_h) = match rng.below(10) {
+        let (term_w, term_h) = match rng.below(11) {
+            10 => (rng.range(36, 60) as u16, *rng.pick(&[6u16, 10, 24])),
             // (a terminal has at least one column and one row: with zero columns
             // ratatui 0.29's Scrollbar itself panics, see DESIGN.md)
             0 => (*rng.pick(&[1u16, 1, 2, 3, 4]), *rng.pick(&[1u16, 1, 2, 3, 4])),
@@ -166,6 +167,20 @@ impl Scenario for C17 {
             for _ in 0..rng.usize(1, 2) {
                 let by = *rng.pick(&[-1i32, -6, -20, -45, -120, -4000, 3, 40, 3000]);
                 events.push(TimedEv { at_ns: rng.below(span_ns), ev: Ev::ClockStep(by) });
+            }
+        }
+        // scripted: a long search pattern with multi-byte characters, longer than
+        // what a narrow terminal can show
+        if rng.chance(0.12) {
+            let mut t = rng.below(span_ns);
+            events.push(TimedEv { at_ns: t, ev: Ev::Ch('/') });
+            for _ in 0..rng.usize(2, 70) {
+                t += rng.range(1_000_000, 60_000_000);
+                let ch = *rng.pick(&['a', 's', 'é', 'é', 'ü', '→', '日', '0', ' ', '-', 'I', 'M']);
+                events.push(TimedEv { at_ns: t, ev: Ev::Ch(ch) });
+            }
+            if rng.chance(0.5) {
+                events.push(TimedEv { at_ns: t + 1_000_000, ev: Ev::Enter });
             }
         }
         // scripted: search for something that matches only some aircraft, then navigate
